@@ -16,7 +16,8 @@ RULE = ("pairs (x, y) of real VersionedCPV/UnversionedCPV objects and of real at
         "revision, operator, blocker, slot, sub-slot, slot operator, repo id, one USE dep, USE default, negate_vers), "
         "(c) all pairs of a stratified pool, (d) random pairs, (e) all pairs of category/package names taken from "
         "proper-prefix families (dev vs dev-x, dev+, dev.x, dev_x, deva; foo vs foo-bar, foo+ ...: the characters around "
-        "'/' in ASCII) as versioned/unversioned CPVs and atoms; plus small lists for sorted()/transitivity.  Every pair is "
+        "'/' in ASCII) as versioned/unversioned CPVs and atoms, (f) all pairs of slot and of sub-slot spellings from a numeric/text "
+        "boundary family (0/00, 1/01/001, 9/09/10/010, 1a, 1.0 ...) on otherwise identical atoms; plus small lists for sorted()/transitivity.  Every pair is "
         "judged by the coherence laws only (no reference answer for the comparison itself).  A pair is non-trivial "
         "when the two objects are written differently and are either an equal-valued respelling or differ in exactly "
         "one attribute; distinct = distinct (kind, spelling of x, spelling of y, negate_vers flags).")
@@ -31,7 +32,7 @@ ASSUMPTIONS = [
 SHARDS = {"quick": 4, "thorough": 16}
 TIMEOUT = {"quick": 240, "thorough": 1800}
 MIN_EVALS = 100000
-REQUIRED_COUNTERS = ("pairs:cpv", "pairs:atom", "prefix_family_key_pairs", "equal_pairs_written_differently:cpv",
+REQUIRED_COUNTERS = ("pairs:cpv", "pairs:atom", "prefix_family_key_pairs", "slot_family_pairs", "equal_pairs_written_differently:cpv",
                      "equal_pairs_written_differently:atom", "sorted_lists_judged", "triples")
 
 OPNAMES = ("eq", "ne", "lt", "le", "gt", "ge")
@@ -325,6 +326,23 @@ def run(ctx):
     pkg_fam = [{"cat": "dev", "pkg": p, "ver": "1.0", "rev": ""} for p in gen.BOUNDARY_PKGS]
     check_list(ctx, mon, "cpv", cat_fam)
     check_list(ctx, mon, "cpv", pkg_fam)
+
+    # (f) every run: all pairs of slot and of sub-slot spellings from the numeric/text boundary family, same atom otherwise
+    fam = gen.SLOT_FAMILY
+    base = dict({"cat": "a", "pkg": "p", "ver": None, "rev": "", "op": ""}, **extra)
+    for idx, (sa_, sb_) in enumerate(itertools.combinations(fam, 2)):
+        if idx % ctx.nshards != ctx.shard:
+            continue
+        mon.check_pair("atom", dict(base, slot=sa_), dict(base, slot=sb_), "slot-family")
+        mon.check_pair("atom", dict(base, slot="1", subslot=sa_), dict(base, slot="1", subslot=sb_), "subslot-family")
+        mon.check_pair("atom", dict(base, slot=sa_, slotop="="), dict(base, slot=sb_, slotop="="), "slot-family")
+        mon.check_pair("atom", dict(base, op="=", ver="1.0", slot=sa_, subslot="1"),
+                       dict(base, op="=", ver="1.0", slot=sb_, subslot="1"), "slot-family")
+        ctx.count("slot_family_pairs")
+    for k in range(ctx.budget(6, 20)):
+        vals = rng.sample(fam, 6)
+        check_list(ctx, mon, "atom", [dict(base, slot=v) for v in vals])
+        check_list(ctx, mon, "atom", [dict(base, slot="0", subslot=v) for v in vals])
 
     # (a)+(b)+(d) CPVs
     for k in range(ctx.budget(20000, 200000)):
